@@ -75,8 +75,8 @@ theorem recOf_absTxn (log : Log) (t : FTxn) (oid base : Nat) :
     (absTxn log t).recOf oid = ((lastRecIn base t.recs oid).map (·.1)).map (absRec log) := by
   unfold Txn.recOf absTxn
   simp only
-  rw [List.filter_map, ← List.map_reverse, List.filter_reverse, List.map_reverse, List.getLast?_reverse,
-    List.head?_map, List.head?_filter, lastRecIn_fst]
+  rw [List.filter_map, List.getLast?_map, List.filter_reverse, List.getLast?_reverse,
+    List.head?_filter, lastRecIn_fst]
   congr 2
   funext r
   simp [absRec_oid]
@@ -135,6 +135,20 @@ theorem recAt_lastPos (oid : Nat) (log : Log) : recAt log (lastPos oid log) = (r
       simp only [lastPos, revRecs, hl, recAt, List.head?_cons]
       rw [if_pos (by omega), h5]; rfl
 
+theorem storedSize_absRec {log : Log} {r : DRec}
+    (hv : ∀ q, r.body = .back q → q ≠ 0 → (recAt log q).isSome) : (absRec log r).storedSize = r.plen := by
+  unfold absRec Rec.storedSize DRec.plen
+  cases hb : r.body with
+  | data d => rfl
+  | back q =>
+    by_cases hq : q = 0
+    · simp [hq]
+    · have := hv q hb hq
+      simp only [hq, if_false]
+      cases hrec : recAt log q with
+      | none => simp [hrec] at this
+      | some x => simp
+
 /-! ### per-object queries -/
 
 section
@@ -166,25 +180,8 @@ theorem getTid_refines : FileStore.getTid s oid = History.getTid (abs s) oid := 
     -- a back pointer that is not 0 names a record (invariant), so `dataTxn` is `some`
     have hinv : ∀ q, th.2.body = .back q → q ≠ 0 → (recAt s.log q).isSome := by
       intro q hb hq
-      clear hr hm
-      have hlog := h.log
-      revert a
-      generalize s.log = log at hlog ⊢
-      intro a
-      induction log with
-      | nil => simp at a
-      | cons t older ih =>
-        obtain ⟨_, hrec, _, hi⟩ := hlog
-        rcases List.mem_cons.1 a with rfl | a
-        · have := (hrec th.2 b).2.2
-          rw [hb] at this
-          simp only at this
-          rcases this with h0 | ⟨th', h1, _⟩
-          · exact absurd h0 hq
-          · rw [recAt_cons_of_lt (recAt_some h1).1, h1]; rfl
-        · have hlt := back_lt hi a b hb
-          rw [recAt_cons_of_lt hlt]
-          exact ih hi a
+      obtain ⟨x, hx, _⟩ := back_valid h.log a b hb hq
+      simp [hx]
     unfold absRec
     cases hb : th.2.body with
     | data d => rfl
@@ -235,20 +232,6 @@ theorem loadSerial_refines (serial : Nat) :
       obtain ⟨t', h'⟩ := x
       simp only [Option.map_some, toRev, absRec_data]
       cases recData s.log h' <;> rfl
-
-theorem storedSize_absRec {log : Log} {r : DRec}
-    (hv : ∀ q, r.body = .back q → q ≠ 0 → (recAt log q).isSome) : (absRec log r).storedSize = r.plen := by
-  unfold absRec Rec.storedSize DRec.plen
-  cases hb : r.body with
-  | data d => rfl
-  | back q =>
-    by_cases hq : q = 0
-    · simp [hq]
-    · have := hv q hb hq
-      simp only [hq, if_false]
-      cases hrec : recAt log q with
-      | none => simp [hrec] at this
-      | some x => simp
 
 end
 
